@@ -481,6 +481,8 @@ func runC13(c *report.Ctx) {
 			}
 		})
 	}
+	ruleSharedBigIntsImmutable(c, []string{pkgKeystore}, 3)
+	ruleValidatedTokensAreDecodedTokens(c)
 }
 
 func ifOf(r ssa.Instruction) *ssa.If {
